@@ -137,6 +137,10 @@ def make_plan(seed: int, tier: str, index: int) -> dict[str, Any]:
         # the interpreter is started without file descriptor 2 (sys.stderr is None: pythonw, GUI
         # and embedded hosts, daemons started with stderr closed)
         plan["no_stderr"] = True
+    if index % 8 == 5 and "fault" not in plan:
+        # the package is imported from a zip archive (zipapp / zipimport deployments): sources and
+        # data files are inside the archive, __file__ names no real file
+        plan["from_zip"] = True
     keys = env_keys()
     if keys and index % 3 == 1:
         # the process environment: every variable the package reads is present with an odd value
@@ -157,9 +161,32 @@ def import_lines(module: str, form: str) -> int:
     return _LINES[key]
 
 
+_ZIP: str | None = None
+
+
+def package_zip() -> str:
+    """The working tree's package (every file of chartparse/, compiled files excluded) as a zip
+    archive in this invocation's scratch."""
+    global _ZIP
+    if _ZIP is None or not os.path.exists(_ZIP):
+        import zipfile
+
+        path = os.path.join(env.scratch(), f"chartparse-{os.getpid()}.zip")
+        with zipfile.ZipFile(path + ".tmp", "w") as z:
+            for root, dirs, files in os.walk(env.PKG_DIR):
+                dirs[:] = sorted(d for d in dirs if d != "__pycache__")
+                for f in sorted(files):
+                    if not f.endswith((".pyc", ".pyo")):
+                        full = os.path.join(root, f)
+                        z.write(full, os.path.join("chartparse", os.path.relpath(full, env.PKG_DIR)))
+        os.replace(path + ".tmp", path)
+        _ZIP = path
+    return _ZIP
+
+
 def _probe(imports: list[list[str]], hashseed: int, fault: dict[str, Any] | None = None,
            werror_cold: bool = False, environ: dict[str, str] | None = None,
-           no_stderr: bool = False, in_thread: bool = False) -> dict[str, Any]:
+           no_stderr: bool = False, in_thread: bool = False, from_zip: bool = False) -> dict[str, Any]:
     ms = modules()
     done = {m for m, _ in imports}
     rest = [m for m in ["chart"] + ms if m not in done]
@@ -176,6 +203,8 @@ def _probe(imports: list[list[str]], hashseed: int, fault: dict[str, Any] | None
 
     penv.update((SLICES.get(os.environ.get("VERIF_SLICE_NAME") or "") or {}).get("env", {}))
     penv.update(environ or {})
+    if from_zip:
+        penv["PYTHONPATH"] = package_zip() + os.pathsep + env.VERIF_ROOT
     cold_dir = None
     if werror_cold:
         import tempfile
@@ -213,6 +242,7 @@ def canonical() -> dict[str, Any]:
 
 def prepare(tier: str, seed: int) -> None:
     canonical()
+    package_zip()  # built once; the workers inherit the path
     # calibrate the fault space once, in the launcher (the workers inherit the table)
     from concurrent.futures import ThreadPoolExecutor
 
@@ -240,7 +270,8 @@ def execute(plan: dict[str, Any]) -> dict[str, Any]:
             fault = {"step": 0, "at": 1 + int(plan["fault"]["frac"] * n) % n}
         got = _probe(plan["imports"], plan["hashseed"], fault=fault,
                      werror_cold=bool(plan.get("werror_cold")), environ=plan.get("environ"),
-                     no_stderr=bool(plan.get("no_stderr")), in_thread=bool(plan.get("in_thread")))
+                     no_stderr=bool(plan.get("no_stderr")), in_thread=bool(plan.get("in_thread")),
+                     from_zip=bool(plan.get("from_zip")))
         hist = " -> ".join(f"{m}[{f}]" for m, f in plan["imports"])
         if fault is not None:
             fr = got.get("fault") or {}
@@ -317,6 +348,7 @@ def execute(plan: dict[str, Any]) -> dict[str, Any]:
         "knobs": {**({"warnings_as_errors_nothing_compiled_yet": 1} if plan.get("werror_cold") else {}),
                   **({"interpreter_started_without_stderr": 1} if plan.get("no_stderr") else {}),
                   **({"imports_made_by_a_worker_thread": 1} if plan.get("in_thread") else {}),
+                  **({"package_imported_from_a_zip_archive": 1} if plan.get("from_zip") else {}),
                   **({"environment_variables_set_to_odd_values": 1} if plan.get("environ") else {})},
         "ops": len(plan["imports"]),
         "sample": {"imports": plan["imports"], "hashseed": plan["hashseed"]},
